@@ -267,7 +267,7 @@ Section C20_query.
     let s := run c c0 0 ls in
     q_writes s = 0 /\ q_rated s = 0 /\
     (forall r, q_result s = Some r ->
-       (exists x, r = RSendErr x /\ (x = CRate \/ (x = CClosed /\ q_closed s = true) \/ (x = CBlocked /\ qc_blocked c = true))) \/
+       (exists x, r = RSendErr x /\ (x = CRate \/ (x = CClosed /\ q_closed s = true) \/ (x = CBlocked /\ q_blocked s = true))) \/
        (r = RCtx /\ q_ctx s = true) \/ r = RReply).
   Proof. exact (query_no_budget_fails c c0 ls). Qed.
 End C20_query.
